@@ -256,13 +256,19 @@ func genCase(rng *rand.Rand, cfg vh.Config, i int) *Case {
 		c.Engine = "Off"
 	}
 	c.ReqAccess = rng.Intn(100) < 78
-	c.ReqLimit = pick(rng, 1, 2, 3, 4, 5, 8, 8, 16, 16, 64, 1000)
+	c.ReqLimit = pick(rng, 1, 2, 3, 4, 5, 8, 8, 16, 16, 3, 5, 8, 2, 4, 64)
+	if rng.Intn(60) == 0 {
+		c.ReqLimit = 1000
+	}
 	c.ReqAction = pick(rng, "Reject", "ProcessPartial")
 	if rng.Intn(4) == 0 {
 		c.ReqMem = 1 + rng.Intn(c.ReqLimit)
 	}
 	c.RespAccess = rng.Intn(100) < 75
-	c.RespLimit = pick(rng, 1, 2, 3, 5, 8, 8, 16, 16, 64, 1000)
+	c.RespLimit = pick(rng, 1, 2, 3, 5, 8, 8, 16, 16, 3, 5, 8, 2, 4, 64)
+	if rng.Intn(60) == 0 {
+		c.RespLimit = 1000
+	}
 	c.RespAction = pick(rng, "Reject", "ProcessPartial")
 	c.Mimes = []string{"text/plain"}
 	if rng.Intn(4) == 0 {
